@@ -49,7 +49,7 @@ AllSigs == {"USR1", "PIPE", "CHLD"}
 DefIgn(sig) == sig = "CHLD"  \* default action "ignore" (XBD signal.h); others terminate
 
 \* Absolute paths (below the scratch root) of every node that can exist.
-Universe == { <<>>, <<"f">>, <<"d">>, <<"d", "g">>, <<"d", "n">>, <<"n">>,
+Universe == { <<>>, <<"f">>, <<"d">>, <<"d", "g">>, <<"d", "n">>, <<"n">>, <<"g">>,
               <<"l">>, <<"ld">>, <<"lx">>, <<"p">> }
 
 NodeNone          == [k |-> "none", data |-> <<>>, perm |-> 0,   to |-> <<>>]
@@ -527,7 +527,9 @@ CallsFD(St) ==
   \cup { [op |-> "pipe"] }
   \cup { [op |-> "close", fd |-> x] : x \in FdArgs(St, TRUE) }
   \cup { [op |-> "dup", fd |-> x, min |-> m, cx |-> b] : x \in FdArgs(St, TRUE), m \in {0, 3, 5}, b \in BOOLEAN }
-  \cup { [op |-> "dup2", fd |-> x, to |-> y] : x \in FdArgs(St, TRUE), y \in (FdRange \ {0, 2}) }
+  \* the shell never duplicates a descriptor onto itself (redir.rs, pipeline.rs
+  \* and command_subst.rs all test fd # target first): not in the alphabet
+  \cup { c \in { [op |-> "dup2", fd |-> x, to |-> y] : x \in FdArgs(St, TRUE), y \in (FdRange \ {0, 2}) } : c.fd # c.to }
   \cup { [op |-> "getfd", fd |-> x] : x \in FdArgs(St, TRUE) }
   \cup { [op |-> "setfd", fd |-> x, cx |-> b] : x \in FdArgs(St, TRUE), b \in BOOLEAN }
   \cup { [op |-> "access", fd |-> x] : x \in FdArgs(St, FALSE) }
